@@ -167,10 +167,12 @@ PROPS = {
                 "read; e2e `ctrl.cut`: raw peer against the real endpoint; targets {SETTINGS, CONNECT request, response, GREASE frame "
                 "on the control stream, GREASE frame on the session stream, close capsule} x cut positions (quick: sampled; "
                 "thorough: every position) x events between the pieces {none, datagram, uni stream, bidi stream, frame on the "
-                "other critical stream} x both sides x both runtimes; the expected outcome is the worker model on the whole "
+                "other critical stream} x both sides x both runtimes, and the whole element with the event fired eight times "
+                "within 25 ms right behind it; the expected outcome is the worker model on the whole "
                 "bytes; non-trivial = distinct line with cut > 0",
         "extracted_keys": ["FRAME_MAX_PARSE_PAYLOAD", "ERROR_CODES", "CAPSULE_CLOSE_WEBTRANSPORT_SESSION",
-                           "CONTROL_READ_PERSISTS_SETTINGS", "CONTROL_READ_PERSISTS_CONNECT"],
+                           "CONTROL_READ_PERSISTS_SETTINGS", "CONTROL_READ_PERSISTS_CONNECT",
+                           "CONTROL_DECISION_ATOMIC_SETTINGS", "CONTROL_DECISION_ATOMIC_CONNECT"],
         "trusted": ["tokio::select! drops the futures of the branches that did not complete (language semantics)",
                     "a boxed future stored in a struct keeps its state when the future that was polling it is dropped"],
         "assumptions": ["pieces are separated by 80 ms on loopback, so each piece is one delivery"],
